@@ -14,8 +14,10 @@ is discharged by the difference-constraint prover from branch facts and caller-d
 (fixed-size little-endian writes, strictly ascending constant add_field sequences, get_field on a message whose producer
 always adds that tag, statistics counter increments), or by an entry of audited_sites.json whose required facts are
 re-checked on every run.  Anything else is a violation naming the site and the call chain from process_events.
+Wake-up: the request socket and the health-check listener, whose handlers read a bounded number of items per event, are registered level-triggered, so
+a backlog larger than one batch keeps raising events until it is drained.
 """
-NOT_DECIDED = "termination of the receive loop (depends on the kernel queue); allocation failure; panics inside dependencies on inputs not covered by the panicking-precondition table"
+NOT_DECIDED = "termination of the receive loop beyond its batch_size bound (depends on the kernel queue); allocation failure; panics inside dependencies on inputs not covered by the panicking-precondition table"
 TRUSTED = ["external callees outside the panicking-precondition table do not panic (list in evidence)", "mio/std socket calls return Err instead of panicking"]
 ASSUMPTIONS = ["the release configuration is analysed (-C debug-assertions=off, overflow checks kept as obligations): debug_assert!() and cfg(debug_assertions) code is compiled out and not part of the decided behaviour", "a statistics counter does not wrap (2^32 events from one address within one reporting window / 2^64 total)",
                "the system clock is not before 1970 (C11's quantifier)", "memory allocation succeeds"]
